@@ -1,12 +1,13 @@
 #!/bin/bash
-# seedtest.sh <patch> <Cxx> [<Cyy> ...] : apply a seeded change to /repo, run the quick checks, undo it
-patch="$1"; shift
+# seedtest.sh <worktree> <patch> <Cxx> [<Cyy> ...] : apply a seeded change to a SCRATCH WORKTREE of /repo (never /repo
+# itself), run the quick checks against that worktree (VERIF_REPO), undo it. Evidence files are not rewritten.
+wt="$1"; patch="$2"; shift; shift
 cd /verif
-if [ -n "$(git -C /repo status --porcelain --untracked-files=no)" ]; then echo "repo not clean"; exit 3; fi
-git -C /repo apply "$patch" || { echo "patch does not apply"; exit 3; }
+[ -d "$wt/pyamg" ] || { echo "no worktree $wt"; exit 3; }
+git -C "$wt" checkout -q -- . 
+git -C "$wt" apply "$patch" || { echo "patch does not apply"; exit 3; }
 for p in "$@"; do
-  out=$(./check $p --tier quick 2>&1); rc=$?
+  out=$(VERIF_REPO="$wt" VERIF_NO_EVIDENCE=1 ./check $p --tier ${TIER:-quick} 2>&1); rc=$?
   echo "== $p rc=$rc"; echo "$out" | grep -E "VIOLATION|what:|KNOWN|NOTE|INFRA" | cut -c1-400 | head -6; echo "$out" | tail -1
 done
-git -C /repo checkout -- .
-git -C /repo status --porcelain --untracked-files=no
+git -C "$wt" checkout -q -- .
